@@ -183,6 +183,31 @@ def nz_facts(cond, truth, cursors, aliases=None):
     return set()
 
 
+def eqvar_facts(cond, truth, cursors, aliases=None):
+    """{((decl, k), var decl)}: bytes known EQUAL to the value of a local variable when cond evaluates to truth
+    (`*p == closer`): non-NUL wherever that local is known to be non-zero"""
+    n = X.strip(cond)
+    if n is None:
+        return set()
+    k = n.get("k")
+    if k == "un" and n.get("op") == "!":
+        return eqvar_facts(n["ch"][0], not truth, cursors, aliases)
+    if k == "bin":
+        op = n.get("op")
+        a, b = n["ch"][0], n["ch"][1]
+        if op == "&&":
+            return (eqvar_facts(a, True, cursors, aliases) | eqvar_facts(b, True, cursors, aliases)) if truth else set()
+        if op == "||":
+            return set() if truth else (eqvar_facts(a, False, cursors, aliases) | eqvar_facts(b, False, cursors, aliases))
+        if op in ("==", "!=") and ((op == "==") == truth):
+            for x, y in ((a, b), (b, a)):
+                be = byte_expr(x, cursors, aliases)
+                sy = X.strip(y)
+                if be is not None and sy is not None and sy.get("k") == "ref" and sy.get("rk") == "local" and X.const_val(sy) is None:
+                    return {(be, sy["d"])}
+    return set()
+
+
 _UNCOND = {}
 
 
@@ -425,7 +450,11 @@ def analyse(fn, cursors, entry_safe=0, justified=None, noreturn=("libast_fatal_e
                     return put(state, be[0], max(get(state, be[0]), be[1] + 1))
             return state
         st = state
-        for d, off in nz_facts(cond, truth, cursors, al):
+        facts_ = set(nz_facts(cond, truth, cursors, al))
+        for be_, vd_ in eqvar_facts(cond, truth, cursors, al):
+            if ("flag", vd_, 1) in state:           # equal to a mode variable that is non-zero in this world
+                facts_.add(be_)
+        for d, off in facts_:
             cur = get(st, d)
             if cur is not None and off >= 0 and off <= cur:
                 st = put(st, d, max(cur, off + 1))
